@@ -6,14 +6,14 @@ from common import *
 
 def hx(s):
     if isinstance(s, str):
-        s = s.encode()
+        s = s.encode("utf-8", "surrogateescape")       # names are byte strings: \udcXX stands for a byte that is not UTF-8
     return s.hex() if s else "-"
 
 
 def gen_manifest(rng, nb=None):
     """builds with 1..3 outputs each over a small name pool; returns (text, builds=[outs])"""
     nb = nb or rng.randint(1, 5)
-    names = ["o%d" % i for i in range(8)] + ["dir/é%d" % i for i in range(3)] + ["x" * rng.choice([100, 300])]
+    names = ["o%d" % i for i in range(8)] + ["dir/é%d" % i for i in range(3)] + ["x" * rng.choice([100, 300])] + ["caf\udce9%d.o" % i for i in range(2)] + ["\udcff\udcfe"]
     rng.shuffle(names)
     builds, used = [], 0
     for _ in range(nb):
@@ -28,7 +28,7 @@ def gen_manifest(rng, nb=None):
 
 
 def gen_writes(rng, builds, n=None, big=False):
-    depnames = ["h%d" % i for i in range(12)] + ["inc/ü.h", "y" * 255, "z" * 256]
+    depnames = ["h%d" % i for i in range(12)] + ["inc/ü.h", "y" * 255, "z" * 256, "h\udce9ader.h", "\udc80", "e\udcc3"]
     ws = []
     for _ in range(n if n is not None else rng.randint(0, 6)):
         b = rng.randrange(len(builds))
@@ -71,7 +71,7 @@ def parse_res(r):
     for ent in kv.get("loaded", "").split(";"):
         if ent:
             b, h, ds = ent.split(":")
-            loaded[int(b)] = (int(h, 16), [unhexs(d).decode() for d in ds.split(",")] if ds else [])
+            loaded[int(b)] = (int(h, 16), [unhexs(d).decode("utf-8", "surrogateescape") for d in ds.split(",")] if ds else [])
     return {"kind": "ok", "after_open": unhexs(kv.get("after_open", "-") or "-"), "loaded": loaded,
             "final": unhexs(kv["final"]) if "final" in kv else None, "raw": r}
 
